@@ -445,12 +445,6 @@ class IASolverBaseClass:  # pylint: disable=R0902
         value : float | np.ndarray
             The new power of all users.
         """
-        # Everything that was calculated with the old power is not valid
-        # anymore
-        self._full_F = None
-        self._full_W_H = None
-        self._full_W = None
-
         if value is None:
             # Note that if self._P is None then the getter property will
             # return a numpy array of ones with the appropriated size.
@@ -471,6 +465,12 @@ class IASolverBaseClass:  # pylint: disable=R0902
                 self._P = np.array(value)
             else:
                 raise ValueError("P cannot be negative or equal to zero.")
+
+        # The new power was accepted: everything that was calculated with
+        # the old power is not valid anymore
+        self._full_F = None
+        self._full_W_H = None
+        self._full_W = None
 
     @property
     def Ns(self) -> np.ndarray:
